@@ -3,7 +3,6 @@ package props
 import (
 	"encoding/json"
 	"fmt"
-	"reflect"
 	"testing"
 
 	"pgregory.net/rapid"
@@ -78,7 +77,7 @@ func checkC03(c *ResumeCase) (int, error) {
 			return runs, fmt.Errorf("resume at tx %d (%+v): %d transactions delivered, the remaining history has %d", k, at, len(stB.got), len(rest))
 		}
 		for i := range rest {
-			if !reflect.DeepEqual(stB.got[i], rest[i]) {
+			if !txEqual(stB.got[i], rest[i]) {
 				a, _ := json.Marshal(rest[i])
 				b, _ := json.Marshal(stB.got[i])
 				return runs, fmt.Errorf("resume at tx %d: transaction %d differs from the one of the uninterrupted stream:\n first: %.600s\n resumed: %.600s", k, k+1+i, a, b)
